@@ -42,6 +42,45 @@ def fold_prefix(ctx: Any, f: Func, handler: ast.ExceptHandler) -> tuple[str | No
     return val, var
 
 
+def _fallback_handler(ctx: Any) -> tuple[Func, ast.ExceptHandler] | None:
+    conv = ctx.repo.func(f"{DEC}:ExplorerScriptSsbDecompiler.convert")
+    for t in walk_no_nested(conv.node):
+        if isinstance(t, ast.Try):
+            for h in t.handlers:
+                if any(isinstance(c, ast.Call) and dotted(c.func) == "SsbScriptSsbDecompiler" for c in ast.walk(h)):
+                    return conv, h
+    return None
+
+
+def fallback_output_rule(chk: Check, ctx: Any, rule: str) -> None:
+    """The text returned by the fallback branch is exactly the text the SsbScript decompiler returned (nothing added around it)."""
+    fh = _fallback_handler(ctx)
+    if fh is None:
+        chk.unknown(rule, "fallback:text-unchanged", ("", 0), "fallback handler of convert() not found")
+        return
+    conv, h = fh
+    rets = [n for n in ast.walk(h) if isinstance(n, ast.Return) and isinstance(n.value, ast.Tuple) and len(n.value.elts) == 2]
+    if not rets:
+        chk.unknown(rule, "fallback:text-unchanged", conv, "fallback handler does not return (text, map)")
+        return
+    # variables/attributes bound directly by `<text>, <map> = <fallback>.convert(prefix=...)`
+    direct: set[str] = set()
+    for s in ast.walk(h):
+        if isinstance(s, ast.Assign) and isinstance(s.targets[0], ast.Tuple) and isinstance(s.value, ast.Call) \
+                and isinstance(s.value.func, ast.Attribute) and s.value.func.attr == "convert":
+            direct.add(norm(s.targets[0].elts[0]))
+    for r in rets:
+        txt = norm(r.value.elts[0])  # type: ignore[union-attr]
+        defs = [s for s in ast.walk(h) if isinstance(s, ast.Assign) and any(norm(t) == txt for t in s.targets)]
+        changed = [s for s in defs if not (norm(s.value) in direct)]
+        aug = [s for s in ast.walk(h) if isinstance(s, ast.AugAssign) and norm(s.target) == txt]
+        ok = (txt in direct and not aug) or (bool(defs) and not changed and not aug)
+        what = norm(changed[0]) if changed else norm(aug[0]) if aug else txt
+        chk.decide(rule, "fallback:text-unchanged", ok, conv,
+                   f"the fallback text is modified after the SsbScript decompiler produced it (`{what[:90]}`): the lines of its source map were "
+                   "counted without the added text, so every entry is shifted", "returned text is exactly the fallback decompiler's output", node=r)
+
+
 def run(chk: Check, ctx: Any) -> None:
     repo = ctx.repo
     cg = ctx.callgraph
@@ -146,18 +185,7 @@ def run(chk: Check, ctx: Any) -> None:
             rest_bad = [l for l in lines[1:] if l.strip() and not l.lstrip().startswith("//")]
             chk.decide("C06-R3", "marker:rest-comments", not rest_bad, conv, f"prefix lines that are not comments: {rest_bad[:2]}", "other prefix lines are comments")
             chk.decide("C06-R3", "marker:ends-with-newline", prefix.endswith("\n"), conv, "the prefix does not end with a newline", "prefix ends a line")
-        # the returned text is what the SsbScript decompiler produced from that prefix (nothing prepended afterwards)
-        for r in rets:
-            tv = astq.inline_locals(conv.node, r.value.elts[0]) if isinstance(r.value, ast.Tuple) else None  # type: ignore[union-attr]
-            txt = norm(r.value.elts[0]) if isinstance(r.value, ast.Tuple) else ""  # type: ignore[union-attr]
-            prepended = isinstance(r.value, ast.Tuple) and isinstance(r.value.elts[0], ast.BinOp)
-            outs = [s for s in ast.walk(h) if isinstance(s, ast.Assign) and any(norm(t) in ("self._output", txt) for tt in s.targets
-                                                                               for t in ([tt] if not isinstance(tt, ast.Tuple) else tt.elts))]
-            mod_after = any(isinstance(s, (ast.AugAssign,)) and norm(s.target) in ("self._output", txt) for s in ast.walk(h)) or any(
-                isinstance(s.value, ast.BinOp) for s in outs)
-            chk.decide("C06-R3", "marker:inside-prefix", not (prepended or mod_after), conv,
-                       "text is added to the fallback output outside the prefix handed to the SsbScript decompiler: its source map lines are "
-                       "counted without that text", "the returned text is exactly what the fallback decompiler wrote", node=r)
+    fallback_output_rule(chk, ctx, "C06-R3")
     # SsbScript decompiler: writes the prefix first and counts its newlines
     sconv = repo.func(f"{SDEC}:SsbScriptSsbDecompiler.convert")
     out_init = [v for a, v, _s in astq.self_assigns(sconv.node) if a == "_output"]
